@@ -291,7 +291,7 @@ TOut ==
         \* C10: same set, same settings => same string
         /\ Judge(~m.found \/ m.m.sid = o.sid, {"C10"}, "nondeterministic", "")
         \* differential properties
-        /\ ~hirok \/
+        /\ IF ~hirok THEN TRUE ELSE
              /\ TwinLang(c, "rep", [c EXCEPT !.rep = FALSE, !.minrep = 1, !.minsub = 1], {"C05"}, lang)
              /\ TwinLang(c, "verbose", [c EXCEPT !.verbose = FALSE], {"C06"}, lang)
              /\ TwinLang(c, "capture", [c EXCEPT !.capture = FALSE], {"C06"}, lang)
@@ -377,7 +377,7 @@ HistFold(front, h, ops, k, objs, mm) ==
                    mm2 == IF isBuild /\ prev = 0 THEN Append(mm, [key |-> key, sid |-> op.sid]) ELSE mm
                IN /\ JudgeH(okOutcome, {"C07", P}, "history-outcome", h, k, op.msg)
                   /\ JudgeH(AliasOk(front, op), {P}, "history-alias", h, k, "")
-                  /\ (~isBuild \/
+                  /\ (IF ~isBuild THEN TRUE ELSE
                         /\ JudgeH(ToCfg(op.cfg) = r.cfg, {"TOOL"}, "history-cfg-belief", h, k, "")
                         /\ JudgeH(prev = 0 \/ prev = op.sid, {P, "C10"}, "history-nondeterministic", h, k, "")
                         /\ (IF front = "py"
